@@ -71,7 +71,7 @@ def gen_scripts(ctx, tier):
     first, extra = o[:3], o[3]
     downs = first[1:]
     gone = first[2]
-    scripts.append(("R2-abort-fail-replace", [net(unch, 4, "r2", ph=1500),
+    scripts.append(("R2-abort-fail-replace", [net(unch, 4, "r2", ph=2500),
                     D.initial_line(first, 2, first[0], period=r.choice([3, 30]), genesis=-r.range(30, 4000), sched=sched(r, first)),
                     D.reshare_line(r.shuffle(first), [extra], [], 3, first[0], mode="abort"),
                     D.reshare_line(r.shuffle(first), [], [], 2, first[0], sched=f"down={downs[0]}/down={downs[1]}"),
@@ -117,21 +117,49 @@ def gen_scripts(ctx, tier):
     return scripts
 
 
+MAX_REPORTS = 3
+
+
 def explore(ctx, res):
     res.level = "proof"
     tier = "thorough" if ctx["deep"] else ctx["tier"]
-    scripts = []
+    corpus = []
     for f in sorted(glob.glob(os.path.join(core.VERIF, "corpus", "C07", "*.json"))):
-        j = json.load(open(f))
-        scripts.append(("corpus:" + os.path.basename(f), j["ops"]))
-    scripts += gen_scripts(ctx, tier)
-    runs = D.run_scripts(scripts, workers=8 if tier == "quick" else 12)
-    evals = validated = 0
-    nontriv = set()
-    samples = []
-    dist = {"reshares_attempted": 0, "reshares_completed": 0, "reshares_not_completed": 0, "shapes": {}, "handover_traces": 0, "handover_rounds": 0,
-            "partials_offered": {}, "vgt_outcomes": {}, "tamper_outcomes": {}, "old_partials_checked": 0, "model_ops": 0, "schemes": {}, "op_errors": {}}
+        corpus.append(("corpus:" + os.path.basename(f), json.load(open(f))["ops"]))
+    quick = gen_scripts(ctx, "quick")
+    stages = [corpus + quick]
+    if tier != "quick":
+        names = {q[0] for q in quick}
+        stages.append([x for x in gen_scripts(ctx, tier) if x[0] not in names])
+    acc = {"evals": 0, "validated": 0, "nontriv": set(), "samples": [], "seen": set(),
+           "dist": {"reshares_attempted": 0, "reshares_completed": 0, "reshares_not_completed": 0, "shapes": {}, "handover_traces": 0, "handover_rounds": 0,
+                    "partials_offered": {}, "vgt_outcomes": {}, "tamper_outcomes": {}, "old_partials_checked": 0, "model_ops": 0, "schemes": {}, "op_errors": {},
+                    "scripts": 0}}
+    for stage in stages:
+        if any(f for _, f in res.violations):
+            break
+        evaluate(ctx, res, D.run_scripts(stage, workers=8), acc)
+    dist = acc["dist"]
+    if dist["reshares_attempted"] and dist["reshares_completed"] == 0:
+        raise core.Broken("harness:dkgrun", "no reshare completed on any node: the runs say nothing about the property")
+    res.cov.update(evaluations=acc["evals"], distinct_nontrivial=len(acc["nontriv"]), traces_validated_against_impl=acc["validated"],
+                   samples=acc["samples"], distribution=dist)
+    res.cov["rule"] = ("reshare scripts on 3-4 (thorough: 3-6) real dkg.Process instances: same set, +1, -1, replace, threshold up/down, an aborted and a failed reshare in "
+                       "between, 2-4 epochs, completion before/after/across a round boundary, and a leader proposing a changed period / scheme; after each reshare the "
+                       "identity fields (public key, chain hash, genesis time, seed, period, scheme, id) of every completing node are compared with the previous group, "
+                       "old-epoch partials are checked against the new polynomial, a real beacon.Handler is driven across the transition round, and the real "
+                       "validateGroupTransition is applied to single-field perturbations; evaluations = ops run and judged (epochs, hand-overs, transition validations); "
+                       "non-trivial = distinct (scheme, shape, size, threshold, epoch) / hand-over traces / validation outcomes; traces_validated = ops whose answers "
+                       "the Lean model reproduced")
+    res.cov["level_note"] = ("partial: share algebra, identity under validateGroupTransition, switch point and admission are proved; agreement on the dealer set under "
+                             "all schedules is PedersenSpec, sampled")
+
+
+def evaluate(ctx, res, runs, acc):
+    dist = acc["dist"]
+    nontriv = acc["nontriv"]
     for name, lines, outs in runs:
+        dist["scripts"] += 1
         scheme = None
         for k, (line, r) in enumerate(zip(lines, outs)):
             prefix = lines[:k + 1]
@@ -144,7 +172,7 @@ def explore(ctx, res):
             if r.get("op") in ("initial", "reshare") and not D.synchronous(r):
                 dist["epochs_discarded_unsynchronised"] = dist.get("epochs_discarded_unsynchronised", 0) + 1
                 break
-            evals += 1
+            acc["evals"] += 1
             bad, mops, mexp, mkind = [], [], [], None
             op = r.get("op")
             if op == "reshare":
@@ -166,12 +194,12 @@ def explore(ctx, res):
                 tam = r.get("tamper")
                 if tam:
                     what = line.split("tamper=")[1].split()[0]
-                    acc = [t for t in tam if t["role"] == "remainer" and t["outcome"] == "ok"]
+                    acc_by = [t for t in tam if t["role"] == "remainer" and t["outcome"] == "ok"]
                     for t in tam:
                         kx = f"{what}:{t['role']}:{t['outcome']}"
                         dist["tamper_outcomes"][kx] = dist["tamper_outcomes"].get(kx, 0) + 1
-                    if acc:
-                        t = acc[0]
+                    if acc_by:
+                        t = acc_by[0]
                         seen = f"stored period {t['stored_period']} s, scheme {t['stored_scheme']}, state {t['stored_state']}"
                         after = ""
                         if comp:
@@ -187,14 +215,20 @@ def explore(ctx, res):
                         continue
                     bad.append(b)
                 if comp and ctx["model_ok"]:
-                    g = comp[sorted(comp)[0]]["fin"]["group"]
-                    mops, mexp = D.model_ops_chain(g)
+                    mops, mexp = D.model_ops_chain(comp[sorted(comp)[0]]["fin"]["group"])
                     mkind = "chain"
             elif op == "initial":
                 comp = D.completed(r)
                 if comp and ctx["model_ok"]:
                     mops, mexp = D.model_ops_chain(comp[sorted(comp)[0]]["fin"]["group"])
                     mkind = "chain"
+            elif op == "abort":
+                # nothing completes in an abort: the completed records must be what they were
+                before = D.last_groups(outs, k)
+                for i, n in r["nodes"].items():
+                    was, now = before.get(int(i)), n.get("fin")
+                    if (was is None) != (now is None) or (was and (was["epoch"] != now["epoch"] or D.group_diff(was["group"], now["group"]))):
+                        bad.append(("failed-reshare-changed-finished-record", f"node {i}: an abort changed the last completed DKG record", {"node": i}))
             elif op == "handover":
                 dist["handover_traces"] += 1
                 dist["handover_rounds"] += len(r["trace"])
@@ -216,11 +250,17 @@ def explore(ctx, res):
                 if ctx["model_ok"]:
                     mops, mexp = D.model_ops_vgt(r)
                     mkind = "vgt"
+            real = False
             for sig, why, detail in bad:
-                res.report(sig, {"engine": "dkgrun", "kind": "impl-violates", "script": name, "ops": prefix, "oracle": why, "observed": detail})
-            if bad and any(v for v, _ in res.violations):
-                continue
-            if mops:
+                if sig in acc["seen"] or len([1 for _, f in res.violations if f]) >= MAX_REPORTS:
+                    real = real or sig in acc["seen"]
+                    continue
+                if res.report(sig, {"engine": "dkgrun", "kind": "impl-violates", "script": name, "ops": prefix, "oracle": why, "observed": detail}):
+                    acc["seen"].add(sig)
+                    real = True
+            if real:
+                break
+            if mops and not any(f for _, f in res.violations):
                 mo = D.run_model(mops)
                 dist["model_ops"] += len(mops)
                 div = None
@@ -234,26 +274,17 @@ def explore(ctx, res):
                     if div:
                         break
                 if div:
-                    res.add_violation({"engine": "dkgrun", "kind": "model-impl-diverge", "script": name, "ops": prefix + ["# model op: " + div[0]], "observed": [div[1]],
-                                       "expected": [div[2]], "note": "correspondence 'dkgrun' (C07: " + mkind + ") no longer checks; the C07 oracle accepts the "
-                                       "implementation's answers on this run. " + div[3]}, found=False)
+                    if "model:" + mkind not in acc["seen"]:
+                        acc["seen"].add("model:" + mkind)
+                        res.add_violation({"engine": "dkgrun", "kind": "model-impl-diverge", "script": name, "ops": prefix + ["# model op: " + div[0]], "observed": [div[1]],
+                                           "expected": [div[2]], "note": "correspondence 'dkgrun' (C07: " + mkind + ") no longer checks; the C07 oracle accepts the "
+                                           "implementation's answers on this run. " + div[3]}, found=False)
                 else:
-                    validated += 1
-            if len(samples) < 5 and op in ("reshare", "handover"):
+                    acc["validated"] += 1
+            if len(acc["samples"]) < 5 and op in ("reshare", "handover"):
                 if op == "reshare":
-                    samples.append({"script": name, "op": line, "completed": sorted(D.completed(r)), "steps": r["steps"]})
+                    acc["samples"].append({"script": name, "op": line, "completed": sorted(D.completed(r)), "steps": r["steps"]})
                 else:
-                    samples.append({"script": name, "op": line, "t_round": r["t_round"], "live": [o["live"] for o in r["trace"]],
-                                    "old_partial": [(o.get("old_partial") or {}).get("outcome") for o in r["trace"]],
-                                    "new_partial": [(o.get("new_partial") or {}).get("outcome") for o in r["trace"]]})
-    if dist["reshares_attempted"] and dist["reshares_completed"] == 0:
-        raise core.Broken("harness:dkgrun", "no reshare completed on any node: the runs say nothing about the property")
-    res.cov.update(evaluations=evals, distinct_nontrivial=len(nontriv), traces_validated_against_impl=validated, samples=samples, distribution=dist)
-    res.cov["rule"] = ("reshare scripts on 3-4 (thorough: 3-6) real dkg.Process instances: same set, +1, -1, replace, threshold up/down, an aborted and a failed reshare in "
-                       "between, 2-4 epochs, completion before/after/across a round boundary, and a leader proposing a changed period / scheme; after each reshare the "
-                       "identity fields (public key, chain hash, genesis time, seed, period, scheme, id) of every completing node are compared with the previous group, "
-                       "old-epoch partials are checked against the new polynomial, a real beacon.Handler is driven across the transition round, and the real "
-                       "validateGroupTransition is applied to single-field perturbations; evaluations = ops run (epochs, hand-overs, transition validations); "
-                       "non-trivial = distinct (scheme, shape, size, threshold, epoch) / hand-over traces / validation outcomes; traces_validated = ops whose answers "
-                       "the Lean model reproduced")
-    res.cov["level_note"] = "partial: share algebra, identity under validateGroupTransition, switch point and admission are proved; agreement on the dealer set under all schedules is PedersenSpec, sampled"
+                    acc["samples"].append({"script": name, "op": line, "t_round": r["t_round"], "live": [o["live"] for o in r["trace"]],
+                                           "old_partial": [(o.get("old_partial") or {}).get("outcome") for o in r["trace"]],
+                                           "new_partial": [(o.get("new_partial") or {}).get("outcome") for o in r["trace"]]})
